@@ -1027,6 +1027,58 @@ def _strictly_inside(e: ast.AST, params: set[str], derived: set[str]) -> bool:
     return False
 
 
+def _counter_descent(res: Resolver, f: FuncInfo, call: ast.Call) -> bool:
+    """self-recursion on a countdown: the call passes `p - k` (k >= 1) for the parameter p of the same function, it is reached
+    only under `p > 0` (or `p >= 1`, `p != 0` with the same start), p is never written in the body, and every call from outside
+    passes an int constant - so the depth is at most that constant"""
+    from ..cfg import atomic_conditions
+
+    params = [a.arg for a in f.node.args.args]  # type: ignore[attr-defined]
+    off = 1 if params and params[0] in ("self", "cls") else 0
+    cands: list[tuple[str, ast.AST]] = []
+    for i, a in enumerate(call.args):
+        if i + off < len(params):
+            cands.append((params[i + off], a))
+    for k in call.keywords:
+        if k.arg in params:
+            cands.append((k.arg, k.value))
+    for pname, a in cands:
+        if not (isinstance(a, ast.BinOp) and isinstance(a.op, ast.Sub) and isinstance(a.left, ast.Name) and a.left.id == pname and isinstance(a.right, ast.Constant) and isinstance(a.right.value, int) and a.right.value >= 1):
+            continue
+        if any(isinstance(n, ast.Name) and n.id == pname and isinstance(n.ctx, (ast.Store, ast.Del)) for n in walk_no_nested(f.node)):
+            continue
+        cfg = CFG(f.node)
+        nodes = [n for n in cfg.nodes if n.ast is not None and n.kind in ("stmt", "test") and any(x is call for x in ast.walk(n.ast))]
+        if len(nodes) != 1:
+            continue
+        atoms = [(ast.unparse(t), v) for t, v in atomic_conditions(cfg, nodes[0].id)] + [(c_, True) for c_ in expression_context_facts(call)]
+        guarded = any((txt in (f"{pname} > 0", f"{pname} >= 1", f"0 < {pname}") and v is True) or (txt in (f"{pname} <= 0", f"{pname} < 1") and v is False) for txt, v in atoms)
+        if not guarded:
+            continue
+        # callers from outside pass a constant
+        ext_ok = True
+        n_ext = 0
+        for g in res.p.all_functions():
+            if g.fqn == f.fqn:
+                continue
+            for c2, callees in res.calls_in(g):
+                if any(cc.kind == "repo" and cc.func is not None and cc.func.fqn == f.fqn for cc in callees):
+                    n_ext += 1
+                    params2 = params
+                    arg = None
+                    idx = params2.index(pname) - off
+                    if idx < len(c2.args):
+                        arg = c2.args[idx]
+                    for k in c2.keywords:
+                        if k.arg == pname:
+                            arg = k.value
+                    if not (isinstance(arg, ast.Constant) and isinstance(arg.value, int) and 0 <= arg.value <= 50):
+                        ext_ok = False
+        if ext_ok and n_ext:
+            return True
+    return False
+
+
 def check_recursion(run: Run, res: Resolver) -> None:
     run.rule("R20.4", "every call-graph cycle reachable from the reader entry points or a tool: inside Parser it passes a function whose depth check against MAX_NESTING_DEPTH raises ParserError before recursing; elsewhere every recursive call descends strictly into a component of a parameter (depth bounded by the parsed document, which the parser caps); cap x frames-per-level stays under the interpreter's recursion limit", 8)
     p = run.project
@@ -1066,7 +1118,7 @@ def check_recursion(run: Run, res: Resolver) -> None:
             for call, callees in res.calls_in(f):
                 for c in callees:
                     if c.kind == "repo" and c.func is not None and c.func.fqn in scc:
-                        if _structural_descent(f, call):
+                        if _structural_descent(f, call) or (c.func.fqn == f.fqn and _counter_descent(res, f, call)):
                             n_desc += 1
                         else:
                             flat[f.fqn].add(c.func.fqn)
